@@ -245,6 +245,19 @@ def run(ctx):
     # Q5 the stepping function is cancel safe: nothing of the stream is held by the pending future while it waits
     import cancel
     n_aw = cancel.check(ctx, 'Q5.nothing-moved-out-of-the-stream-across-await', f, N)
+    # Q5 a stream whose receiver is gone while it is still Active (a pending next() was dropped while an adapter was replacing a
+    # finished Search with its successor: the receiver was emptied at Done and the follow-up not yet spliced in) answers an error;
+    # it does not panic.  Decided by evaluating the stepping function with the receiver field holding None.
+    n_rx = 0
+    bad_rx = []
+    for o in absx.Interp(f, N, combinators=True).run(root=sem.entry(N), heap={STATE_PLACE: ('ctor', 'StreamState::Active', ()), ('field', SELF, 'rx'): ('ctor', 'None', ())}):
+        n_rx += 1
+        panics = [e for e in o.st.ev if e[0] in ('may-panic', 'panic')]
+        if o.kind == 'div' or panics or not (o.kind in ('val', 'ret') and sem.is_err_result(o.val)):
+            bad_rx.append((o.kind, absx.fmt(o.val)[:40] if o.val else '', len(panics)))
+    ctx.add('Q5.missing-receiver-is-an-error', N.path, loc(N.root), n_rx >= 1 and not bad_rx,
+            'with no receiver in the stream (a next() future dropped while an adapter was starting the follow-up Search leaves the stream Active with rx == None) the '
+            'stepping function does not answer an error: %s - the following next() panics' % (bad_rx[:3] or 'no path'))
     # Q5 for the three shims: what a shim changes only for the time its callee runs (the position in the adapter chain) must not be
     # left changed when the pending future is dropped at that await - the next call would start further down the chain, bypass the
     # adapters and never reach Done
@@ -284,7 +297,9 @@ def run(ctx):
             if v[2] and v[2][0] == ('ctor', 'LdapError::EndOfStream', ()):
                 kinds.add('eos')
                 rx = o.st.heap.get(('field', SELF, 'rx'))
-                ctx.add('Q2.closed-channel', 'Err(EndOfStream)', loc(N.root), rx == ('ctor', 'None', ()), 'closed channel: receiver not dropped')
+                # ... or the path found the receiver gone already (the field was tested and is None)
+                gone = absx.pc_variant(o.st.pc, lambda t: sem.strip_site(t) == ('field', SELF, 'rx') or sem.has(t, lambda x: x == ('field', SELF, 'rx')), 'None') is True
+                ctx.add('Q2.closed-channel', 'Err(EndOfStream)', loc(N.root), rx == ('ctor', 'None', ()) or (rx is None and gone), 'closed channel: receiver not dropped')
             continue
         if v[0] == 'ctor' and v[1] == 'Ok' and v[2] and v[2][0][0] == 'ctor' and v[2][0][1] == 'Some':
             # the VALUE handed out at the end of the path: the constructor term with the stores the path made to its components
